@@ -296,7 +296,7 @@ func NewHTTPTargeter(src io.Reader, body []byte, hdr http.Header) Targeter {
 			// Copy the default values: appending a target's own values to the shared
 			// slice would write into its spare capacity, so that the next target
 			// overwrites the header values of one returned earlier.
-			tgt.Header[k] = append([]string(nil), vs...)
+			tgt.Header[k] = append(make([]string, 0, len(vs)), vs...)
 		}
 
 		tokens := strings.SplitN(line, " ", 2)
